@@ -44,6 +44,13 @@ def carried(st, fine, n, desc):
     return have
 
 
+def levels_oracle(ctx, case, steps, ctor_err):
+    if steps is None:
+        return
+    suites.level_definitions_oracle(ctx, case, steps)
+    oracle(ctx, case, steps, ctor_err)
+
+
 def oracle(ctx, case, steps, ctor_err):
     if steps is None:
         return
@@ -292,6 +299,16 @@ def run(ctx):
             case = gen_mol.cut_case(rng, nmin=7, nmax=14, label_p=1.0, aromatic_p=0.5, thio_p=0.6)
             case['legacy'] = True
             case['unique_labels'] = True
+        elif i % 12 == 5:
+            # several fragment levels, names re-used from one level to the next, coarse or atomistic last level: at every
+            # level the bonds are made with the descriptors of the definitions WRITTEN FOR THAT LEVEL
+            import gen_levels
+            case = gen_levels.hier_case(rng)
+            if rng.random() < 0.5:
+                case = dict(case, all_atom=False, s=case['s'].rsplit('.{', 1)[0], flat=None, kind='hier-cg')
+            ctx.feature('multi-level')
+            suites.run_resolve_case(ctx, 'resolve-levels', case, oracle=levels_oracle)
+            continue
         else:
             case = gen_mol.ambiguous_case(rng)
         suites.run_resolve_case(ctx, 'resolve', case, oracle=dedicated_oracle if case.get('kind') == 'dedicated' else
@@ -312,7 +329,7 @@ def replay(payload):
         got = compatible(case['l'], case['r'], legacy=case['legacy'])
         print('compatible ->', got, 'required', spec_compatible(case['l'], case['r'], case['legacy']))
         return 1 if got != spec_compatible(case['l'], case['r'], case['legacy']) else 0
-    suites.run_resolve_case(ctx, 'replay', case, oracle=oracle, compare=False)
+    suites.run_resolve_case(ctx, 'replay', case, oracle=levels_oracle if str(case.get('kind', '')).startswith('hier') else oracle, compare=False)
     for c, what, _ in ctx.failures:
         print('FAILS:', what)
     print('input:', case.get('s'))
